@@ -1,4 +1,5 @@
 import MiniVecProof.Model.Iter
+import MiniVecProof.Model.Serde
 /-
   Registers, operations and the step function (DESIGN.md §3.4). Executable; the driver is a thin
   parser/printer around `step`.
@@ -98,6 +99,9 @@ inductive Op
   | next (it : String) | next_back (it : String)
   | size_hint (it : String) | len (it : String) | as_slice (it : String)
   | clone_iter (it itnew : String)
+  | serialize (r : String)
+  | deserialize (rnew : String) (hint : Option Nat) (sc : List SeqItem)
+  | deserialize_in_place (r : String) (hint : Option Nat) (sc : List SeqItem)
   deriving Repr, Inhabited
 
 inductive Out
@@ -108,6 +112,7 @@ inductive Out
   | hint (lo : Nat) (hi : Option Nat)
   | elems (es : List Elem)
   | errName (s : String)
+  | err
   | cmp (eq : Bool) (pc : Option Ordering) (c : Ordering) (heq : Bool)
   | stopped (p : Panic)
   | badOp
@@ -404,6 +409,16 @@ def step (w : World) : Op → World × Out
         | .ok es => (w', .elems es)
         | .error p => (w', .stopped p))
      | _ => (w, .badOp))
+  | .serialize r => w.onVecReg r (do let es ← contents X; pure (.elems es))
+  | .deserialize rnew hint sc =>
+    if !w.fresh rnew then (w, .badOp) else
+    let (res, _, w') := runOn w {} (Serde.deserialize X hint sc)
+    (match res with
+     | .ok (some v) => (w'.set rnew (.vec v), .ok)
+     | .ok none => (w', .err)
+     | .error p => (w', .stopped p))
+  | .deserialize_in_place r hint sc =>
+    w.onVecReg r (do let ok ← Serde.deserialize_in_place X hint sc; pure (if ok then .ok else .err))
   | .clone_iter it itnew =>
     if !w.fresh itnew then (w, .badOp) else
     (match w.get it with
